@@ -4438,7 +4438,7 @@ class FlowIR(object):
 
                 try:
                     stage_weight = float(flowir[self.FieldStatusReport][idx]['stage-weight'])
-                except ValueError:
+                except (ValueError, TypeError):
                     stage_weight = 0.0
 
                 weights.append(stage_weight)
